@@ -309,7 +309,7 @@ class Run:
     env = self.env
     if fn in env.anchor_files:
       name = frame.f_code.co_name
-      if name in ACCESSORS:
+      if name in env.accessors:
         return None      # one-line accessor: executes atomically with the statement that calls it
       if name == 'next' and fn == env.lb_file:
         self.sched.ctor_done[tid] = True
@@ -712,15 +712,17 @@ class Env:
     self.Rec, self.StopBelow = Rec, StopBelow
 
   def check_accessors(self, root):
-    """Every function of an anchor file named in ACCESSORS must be a single `return <expr>`."""
+    """A function of an anchor file named in ACCESSORS is executed atomically with its caller's
+    statement only if it is a single `return <expr>`; otherwise it is traced like any other function."""
     import ast    # pylint: disable=import-outside-toplevel
+    self.accessors = set(ACCESSORS)
     for rel in ANCHOR_RELS:
       tree = ast.parse(open(os.path.join(root, rel)).read())
       for n in ast.walk(tree):
         if isinstance(n, ast.FunctionDef) and n.name in ACCESSORS:
           body = [b for b in n.body if not (isinstance(b, ast.Expr) and isinstance(b.value, ast.Constant))]
           if len(body) > 1 or (body and not isinstance(body[0], (ast.Return, ast.Pass))):
-            raise framework.InfraError('%s: %s is treated as an atomic accessor but is not a one-liner' % (rel, n.name))
+            self.accessors.discard(n.name)
 
   def make_algo(self, kind):
     pg = self.pg
@@ -886,7 +888,7 @@ class C16(Prop):
           yield dict(base, sched={'mode': 'directives', 'd': [['hot', a, 0]]})
         if tier == 'thorough':
           for a in range(0, horizon):
-            for b in range(a + 1, min(horizon, a + 30)):
+            for b in range(a + 1, min(horizon, a + 23)):
               yield dict(base, sched={'mode': 'directives', 'd': [['hot', a, 0], ['hot', b, 0]]})
 
   SMALL = [
